@@ -1,19 +1,822 @@
-//! Engine `pager` — not built yet (stub).
+//! Engine `pager` (C11) — judge mode.
+//!
+//! Two case kinds; `exec` returns an *observation* of the real code, the Lean driver judges it.
+//!
+//! 1. Allocator sequences on a raw pager (`Pager::allocate_page` / `dealloc_page` through `axmosdb::verif::pager::VPager`):
+//!      seq <pagesize> <cache> | op ; op ; …
+//!        a        allocate_page::<BtreePage>()          o        allocate_page::<OverflowPage>()
+//!        d <p>    dealloc_page::<BtreePage>(p)          x <p>    dealloc_page::<OverflowPage>(p)
+//!        l <p> <q>  set `next` of overflow page p to q (0 = None), as CellBuilder::build_cell does
+//!        f        Pager::flush                           r        flush, drop the pager, Pager::open
+//!    A case in which `d`/`x`/`l` names a page id >= total_pages (at that moment) is malformed (`bad-op`).
+//!    Observation: `obs <res> h=<first>:<last>:<total> w=<free walk p1+p2…|-> ; …` one entry per op;
+//!      res = p<id> | ok | E<io::ErrorKind>; the walk follows `next` from first_free_page for at most total_pages steps.
+//!    The judge recomputes every entry with the Lean allocator model.
+//!
+//! 2. SQL histories on a real `Database` in a scratch directory:
+//!      sql <pagesize> <cache> | op ; op ; …
+//!        ct <t> | dt <t> | ci <i> <t> <col> | di <i>
+//!        ins <t> <id> <len> | upd <t> <id> <len> | del <t> <id> | delr <t> <lo> <hi>
+//!        sK:begin | sK:<dml or ddl op> | sK:commit | sK:rollback
+//!        vac | flush | reopen
+//!      tables are (id BIGINT, k BIGINT, v TEXT): k = id * 7 + 1 (unique), v = text(len, id)
+//!    After **every** op the whole file is dumped (`verif::btree::dump_file` from the roots of all trees of the catalog).
+//!    Observation: `obs <step> ; <step> ; …`, step = `r=<ok|E<class>|P<file:line>> T=<total> F=<first>:<last> R=<root,…> <page token>*`
+//!      page tokens (only those that changed since the previous step):
+//!        L<id>:<prev>:<next>:<slot>@<p1+p2…>,…                 leaf; only cells with an overflow chain are listed
+//!        I<id>:<prev>:<next>:<right>:<left>[@<p1+p2…>],…       interior; every cell (= divider) with its left child
+//!        O<id>:<next>                                           overflow-shaped page (chain link or free page)
+//!        B<id>                                                  unreadable / malformed
+//!      R lists the roots that count: meta table, meta index, and every physical catalog row that is not deleted by a
+//!      transaction that was not rolled back.
+//!    The judge runs `checkOwnership` on every step and the reuse-before-growth rule on consecutive steps.
 use super::{Case, Engine, Tier};
 use crate::rng::Rng;
+use axmosdb::verif::btree::{DumpCache, FileDump, KeyKind, PageBody, dump_file_cached};
+use axmosdb::verif::pager::{PKind, VPager, database_roots};
+use axmosdb::{DBConfig, Database};
+use std::collections::{BTreeMap, VecDeque};
+use std::sync::atomic::{AtomicU64, Ordering as AtomicOrdering};
 
 pub struct PagerEngine;
 
-impl Engine for PagerEngine {
-    fn gen_cases(&self, _rng: &mut Rng, _tier: Tier) -> Vec<Case> {
-        Vec::new()
+pub fn generated() -> Option<(&'static str, String)> {
+    None
+}
+
+static COUNTER: AtomicU64 = AtomicU64::new(0);
+
+struct Scratch(std::path::PathBuf);
+impl Scratch {
+    fn new() -> Scratch {
+        let n = COUNTER.fetch_add(1, AtomicOrdering::Relaxed);
+        if n == 0 {
+            // children that were killed (hang) or aborted could not remove their directory: sweep those of dead processes
+            if let Ok(rd) = std::fs::read_dir(std::env::temp_dir()) {
+                for e in rd.flatten() {
+                    let name = e.file_name().to_string_lossy().to_string();
+                    if let Some(rest) = name.strip_prefix("axh-pager-") {
+                        let pid = rest.split('-').next().unwrap_or("");
+                        if !pid.is_empty() && !std::path::Path::new("/proc").join(pid).exists() {
+                            let _ = std::fs::remove_dir_all(e.path());
+                        }
+                    }
+                }
+            }
+        }
+        let d = std::env::temp_dir().join(format!("axh-pager-{}-{}", std::process::id(), n));
+        let _ = std::fs::remove_dir_all(&d);
+        std::fs::create_dir_all(&d).expect("scratch dir");
+        Scratch(d)
     }
-    fn exec(&mut self, _line: &str) -> String {
-        "unimplemented".into()
+}
+impl Drop for Scratch {
+    fn drop(&mut self) {
+        let _ = std::fs::remove_dir_all(&self.0);
     }
 }
 
-/// Content of `lean/AxVerif/Generated/<Engine>.lean`, if this engine extracts constants from the code.
-pub fn generated() -> Option<(&'static str, String)> {
-    None
+fn guard<T>(f: impl FnOnce() -> Result<T, String>) -> Result<T, String> {
+    crate::LAST_PANIC.with(|p| *p.borrow_mut() = None);
+    match std::panic::catch_unwind(std::panic::AssertUnwindSafe(f)) {
+        Ok(r) => r,
+        Err(_) => {
+            let loc = crate::LAST_PANIC.with(|p| p.borrow_mut().take()).unwrap_or_else(|| "?".into());
+            Err(format!("PANIC@{}", loc))
+        }
+    }
+}
+
+fn parse_params(head: &str, kind: &str) -> Option<(usize, usize)> {
+    let w: Vec<&str> = head.split(' ').collect();
+    if w.len() != 3 || w[0] != kind {
+        return None;
+    }
+    let ps: usize = w[1].parse().ok()?;
+    let cache: usize = w[2].parse().ok()?;
+    if !(ps == 4096 || ps == 8192) || !(8..=20000).contains(&cache) {
+        return None;
+    }
+    Some((ps, cache))
+}
+
+// ------------------------------------------------------------------------------------------------ allocator sequences
+
+#[derive(Clone, Debug, PartialEq)]
+enum SOp {
+    Alloc(bool),
+    Dealloc(u64, bool),
+    Link(u64, u64),
+    Flush,
+    Reopen,
+}
+
+fn parse_sop(s: &str) -> Option<SOp> {
+    let w: Vec<&str> = s.split(' ').collect();
+    let num = |x: &str| -> Option<u64> {
+        if x.len() > 7 || x.is_empty() || !x.bytes().all(|b| b.is_ascii_digit()) { None } else { x.parse().ok() }
+    };
+    Some(match w.as_slice() {
+        ["a"] => SOp::Alloc(false),
+        ["o"] => SOp::Alloc(true),
+        ["d", p] => SOp::Dealloc(num(p)?, false),
+        ["x", p] => SOp::Dealloc(num(p)?, true),
+        ["l", p, q] => SOp::Link(num(p)?, num(q)?),
+        ["f"] => SOp::Flush,
+        ["r"] => SOp::Reopen,
+        _ => return None,
+    })
+}
+
+fn show_sop(op: &SOp) -> String {
+    match op {
+        SOp::Alloc(false) => "a".into(),
+        SOp::Alloc(true) => "o".into(),
+        SOp::Dealloc(p, false) => format!("d {}", p),
+        SOp::Dealloc(p, true) => format!("x {}", p),
+        SOp::Link(p, q) => format!("l {} {}", p, q),
+        SOp::Flush => "f".into(),
+        SOp::Reopen => "r".into(),
+    }
+}
+
+/// the free list as a reader finds it: follow `next` from `first` for at most `total` steps
+fn walk_of(d: &FileDump) -> Vec<u64> {
+    let mut out = Vec::new();
+    let mut cur = d.first_free.unwrap_or(0);
+    while cur != 0 && (out.len() as u64) < d.total_pages {
+        out.push(cur);
+        let Some(pg) = d.pages.iter().find(|p| p.id == cur) else { break };
+        match &pg.body {
+            PageBody::Overflow(o) => cur = o.next.unwrap_or(0),
+            _ => break,
+        }
+    }
+    out
+}
+
+fn join_ids(v: &[u64]) -> String {
+    if v.is_empty() { "-".into() } else { v.iter().map(|x| x.to_string()).collect::<Vec<_>>().join("+") }
+}
+
+fn exec_seq(line: &str) -> String {
+    let Some((head, body)) = line.split_once(" | ") else { return "bad-op".into() };
+    let Some((ps, cache)) = parse_params(head, "seq") else { return "bad-op".into() };
+    let mut ops = Vec::new();
+    for part in body.split(" ; ") {
+        match parse_sop(part) {
+            Some(o) => ops.push(o),
+            None => return "bad-op".into(),
+        }
+    }
+    if ops.is_empty() || ops.len() > 2000 {
+        return "bad-op".into();
+    }
+    let scratch = Scratch::new();
+    let Ok(mut vp) = VPager::create(&scratch.0, ps, cache) else { return "create-failed".into() };
+    let mut parts = Vec::new();
+    for op in &ops {
+        let total = vp.header().total;
+        let res: Result<String, String> = match op {
+            SOp::Alloc(k) => guard(|| vp.alloc(if *k { PKind::Overflow } else { PKind::Btree })).map(|p| format!("p{}", p)),
+            SOp::Dealloc(p, k) => {
+                if *p >= total {
+                    return "bad-op".into();
+                }
+                guard(|| vp.dealloc(*p, if *k { PKind::Overflow } else { PKind::Btree })).map(|_| "ok".into())
+            }
+            SOp::Link(p, q) => {
+                if *p >= total || *q >= total {
+                    return "bad-op".into();
+                }
+                guard(|| vp.link(*p, if *q == 0 { None } else { Some(*q) })).map(|_| "ok".into())
+            }
+            SOp::Flush => guard(|| vp.flush()).map(|_| "ok".into()),
+            SOp::Reopen => guard(|| vp.reopen()).map(|_| "ok".into()),
+        };
+        let r = match res {
+            Ok(s) => s,
+            Err(e) => format!("E{}", e),
+        };
+        let h = vp.header();
+        let d = vp.dump();
+        parts.push(format!("{} h={}:{}:{} w={}", r, h.first, h.last, h.total, join_ids(&walk_of(&d))));
+        if r.starts_with("EPANIC") {
+            break;
+        }
+    }
+    format!("obs {}", parts.join(" ; "))
+}
+
+// ------------------------------------------------------------------------------------------------ SQL histories
+
+#[derive(Clone, Debug, PartialEq)]
+enum Stmt {
+    CreateTable(String),
+    DropTable(String),
+    CreateIndex(String, String, String),
+    DropIndex(String),
+    Insert(String, u64, usize),
+    Update(String, u64, usize),
+    Delete(String, u64),
+    DeleteRange(String, u64, u64),
+}
+
+#[derive(Clone, Debug, PartialEq)]
+enum QOp {
+    Auto(Stmt),
+    SBegin(u32),
+    SStmt(u32, Stmt),
+    SCommit(u32),
+    SRollback(u32),
+    Vacuum,
+    Flush,
+    Reopen,
+}
+
+fn ident_ok(s: &str, pfx: char) -> bool {
+    let mut cs = s.chars();
+    cs.next() == Some(pfx) && s.len() >= 2 && s.len() <= 4 && cs.all(|c| c.is_ascii_digit())
+}
+
+/// text(len, id): lower-case letters depending on position and id
+fn text_of(len: usize, id: u64) -> String {
+    (0..len).map(|i| (b'a' + ((i as u64 * 7 + id * 3 + (i as u64 / 26)) % 26) as u8) as char).collect()
+}
+
+impl Stmt {
+    fn parse(w: &[&str]) -> Option<Stmt> {
+        let num = |x: &str| -> Option<u64> {
+            if x.len() > 7 || x.is_empty() || !x.bytes().all(|b| b.is_ascii_digit()) { None } else { x.parse().ok() }
+        };
+        Some(match w {
+            ["ct", t] if ident_ok(t, 't') => Stmt::CreateTable(t.to_string()),
+            ["dt", t] if ident_ok(t, 't') => Stmt::DropTable(t.to_string()),
+            ["ci", i, t, c] if ident_ok(i, 'i') && ident_ok(t, 't') && (*c == "k" || *c == "v" || *c == "id") => {
+                Stmt::CreateIndex(i.to_string(), t.to_string(), c.to_string())
+            }
+            ["di", i] if ident_ok(i, 'i') => Stmt::DropIndex(i.to_string()),
+            ["ins", t, id, len] if ident_ok(t, 't') => Stmt::Insert(t.to_string(), num(id)?, num(len).filter(|n| *n <= 60_000)? as usize),
+            ["upd", t, id, len] if ident_ok(t, 't') => Stmt::Update(t.to_string(), num(id)?, num(len).filter(|n| *n <= 60_000)? as usize),
+            ["del", t, id] if ident_ok(t, 't') => Stmt::Delete(t.to_string(), num(id)?),
+            ["delr", t, lo, hi] if ident_ok(t, 't') => Stmt::DeleteRange(t.to_string(), num(lo)?, num(hi)?),
+            _ => return None,
+        })
+    }
+    fn show(&self) -> String {
+        match self {
+            Stmt::CreateTable(t) => format!("ct {}", t),
+            Stmt::DropTable(t) => format!("dt {}", t),
+            Stmt::CreateIndex(i, t, c) => format!("ci {} {} {}", i, t, c),
+            Stmt::DropIndex(i) => format!("di {}", i),
+            Stmt::Insert(t, id, len) => format!("ins {} {} {}", t, id, len),
+            Stmt::Update(t, id, len) => format!("upd {} {} {}", t, id, len),
+            Stmt::Delete(t, id) => format!("del {} {}", t, id),
+            Stmt::DeleteRange(t, lo, hi) => format!("delr {} {} {}", t, lo, hi),
+        }
+    }
+    fn sql(&self) -> String {
+        match self {
+            Stmt::CreateTable(t) => format!("CREATE TABLE {} (id BIGINT, k BIGINT, v TEXT)", t),
+            Stmt::DropTable(t) => format!("DROP TABLE {}", t),
+            Stmt::CreateIndex(i, t, c) => format!("CREATE UNIQUE INDEX {} ON {}({})", i, t, c),
+            Stmt::DropIndex(i) => format!("DROP INDEX {}", i),
+            Stmt::Insert(t, id, len) => format!("INSERT INTO {} VALUES ({}, {}, '{}')", t, id, id * 7 + 1, text_of(*len, *id)),
+            Stmt::Update(t, id, len) => format!("UPDATE {} SET v = '{}' WHERE id = {}", t, text_of(*len, *id + 1), id),
+            Stmt::Delete(t, id) => format!("DELETE FROM {} WHERE id = {}", t, id),
+            Stmt::DeleteRange(t, lo, hi) => format!("DELETE FROM {} WHERE id >= {} AND id < {}", t, lo, hi),
+        }
+    }
+}
+
+fn parse_qop(s: &str) -> Option<QOp> {
+    let w: Vec<&str> = s.split(' ').collect();
+    if w.is_empty() {
+        return None;
+    }
+    match w.as_slice() {
+        ["vac"] => return Some(QOp::Vacuum),
+        ["flush"] => return Some(QOp::Flush),
+        ["reopen"] => return Some(QOp::Reopen),
+        _ => {}
+    }
+    if let Some((sess, first)) = w[0].split_once(':') {
+        let k: u32 = sess.strip_prefix('s').filter(|x| x.len() == 1)?.parse().ok()?;
+        return Some(match (first, w.len()) {
+            ("begin", 1) => QOp::SBegin(k),
+            ("commit", 1) => QOp::SCommit(k),
+            ("rollback", 1) => QOp::SRollback(k),
+            _ => {
+                let mut w2 = vec![first];
+                w2.extend_from_slice(&w[1..]);
+                QOp::SStmt(k, Stmt::parse(&w2)?)
+            }
+        });
+    }
+    Some(QOp::Auto(Stmt::parse(&w)?))
+}
+
+fn show_qop(op: &QOp) -> String {
+    match op {
+        QOp::Auto(s) => s.show(),
+        QOp::SBegin(k) => format!("s{}:begin", k),
+        QOp::SStmt(k, s) => format!("s{}:{}", k, s.show()),
+        QOp::SCommit(k) => format!("s{}:commit", k),
+        QOp::SRollback(k) => format!("s{}:rollback", k),
+        QOp::Vacuum => "vac".into(),
+        QOp::Flush => "flush".into(),
+        QOp::Reopen => "reopen".into(),
+    }
+}
+
+fn db_err_class(e: &axmosdb::DatabaseError) -> &'static str {
+    use axmosdb::DatabaseError::*;
+    match e {
+        Io(_) => "io",
+        Query(_) => "query",
+        Task(_) => "task",
+        AlreadyExists(_) => "exists",
+        NotFound(_) => "notfound",
+        RecoveryFailed(_) => "recovery",
+        Runtime(_) => "runtime",
+        TransactionManagement(_) => "txn",
+        Other(_) => "other",
+    }
+}
+
+fn id0(x: Option<u64>) -> u64 {
+    x.unwrap_or(0)
+}
+
+fn chain_str(c: &axmosdb::verif::btree::CellDump) -> String {
+    format!(
+        "@{}{}",
+        c.overflow_chain.iter().map(|x| x.to_string()).collect::<Vec<_>>().join("+"),
+        if c.chain_ok { "" } else { "!" }
+    )
+}
+
+fn page_tokens(d: &FileDump) -> BTreeMap<u64, String> {
+    let mut out = BTreeMap::new();
+    for p in &d.pages {
+        let tok = match &p.body {
+            PageBody::Unreadable(_) => format!("B{}", p.id),
+            PageBody::Overflow(o) => format!("O{}:{}", p.id, id0(o.next)),
+            PageBody::Btree(b) => {
+                if !b.well_formed || b.self_id != p.id {
+                    format!("B{}", p.id)
+                } else if b.right_child.is_none() {
+                    let cells: Vec<String> = b
+                        .cells
+                        .iter()
+                        .enumerate()
+                        .filter(|(_, c)| c.is_overflow)
+                        .map(|(i, c)| format!("{}{}", i, chain_str(c)))
+                        .collect();
+                    format!("L{}:{}:{}:{}", p.id, id0(b.prev), id0(b.next), cells.join(","))
+                } else {
+                    let cells: Vec<String> = b
+                        .cells
+                        .iter()
+                        .map(|c| format!("{}{}", id0(c.left_child), if c.is_overflow { chain_str(c) } else { String::new() }))
+                        .collect();
+                    format!("I{}:{}:{}:{}:{}", p.id, id0(b.prev), id0(b.next), id0(b.right_child), cells.join(","))
+                }
+            }
+        };
+        out.insert(p.id, tok);
+    }
+    out
+}
+
+struct Observer {
+    prev: BTreeMap<u64, String>,
+    cache: Option<DumpCache>,
+}
+
+impl Observer {
+    fn step(&mut self, db: &Database) -> String {
+        let roots = match guard(|| database_roots(db)) {
+            Ok(r) => r,
+            Err(e) => return format!("D=Ecatalog:{}", e.split(':').next().unwrap_or("?")),
+        };
+        let counted: Vec<u64> =
+            roots.iter().filter(|r| !(r.xmax.is_some() && !r.xmax_aborted)).map(|r| r.root).collect();
+        let rk: Vec<(u64, KeyKind)> = counted.iter().map(|r| (*r, KeyKind::U64)).collect();
+        let mut cache = self.cache.take();
+        let pager = db.pager().clone();
+        let d = match guard(|| Ok(dump_file_cached(&pager, &rk, &mut cache))) {
+            Ok(d) => d,
+            Err(e) => return format!("D=Edump:{}", e),
+        };
+        self.cache = cache;
+        let toks = page_tokens(&d);
+        let mut s = format!(
+            "T={} F={}:{} R={}",
+            d.total_pages,
+            id0(d.first_free),
+            id0(d.last_free),
+            counted.iter().map(|x| x.to_string()).collect::<Vec<_>>().join(",")
+        );
+        for (id, tok) in &toks {
+            if self.prev.get(id) != Some(tok) {
+                s.push(' ');
+                s.push_str(tok);
+            }
+        }
+        // pages that disappeared cannot happen (total_pages never shrinks); keep the table anyway
+        self.prev = toks;
+        s
+    }
+}
+
+fn exec_sql(line: &str) -> String {
+    let Some((head, body)) = line.split_once(" | ") else { return "bad-op".into() };
+    let Some((ps, cache)) = parse_params(head, "sql") else { return "bad-op".into() };
+    let mut ops = Vec::new();
+    for part in body.split(" ; ") {
+        match parse_qop(part) {
+            Some(o) => ops.push(o),
+            None => return "bad-op".into(),
+        }
+    }
+    if ops.is_empty() || ops.len() > 3000 {
+        return "bad-op".into();
+    }
+    let scratch = Scratch::new();
+    let path = scratch.0.join("test.db");
+    let cfg = DBConfig::builder().page_size(ps).cache_size(cache).pool_size(2).build();
+    let mut db = match Database::create(&path, cfg) {
+        Ok(db) => Some(db),
+        Err(_) => return "create-failed".into(),
+    };
+    let mut sessions: BTreeMap<u32, axmosdb::tcp::session::Session> = BTreeMap::new();
+    let mut obs = Observer { prev: BTreeMap::new(), cache: None };
+    let mut parts = Vec::new();
+    for op in &ops {
+        let r: Result<(), String> = guard(|| {
+            let dbr = db.as_ref().ok_or_else(|| "closed".to_string())?;
+            match op {
+                QOp::Auto(s) => dbr.execute(&s.sql()).map(|_| ()).map_err(|e| db_err_class(&e).to_string()),
+                QOp::SBegin(k) => match dbr.session() {
+                    Ok(s) => {
+                        sessions.insert(*k, s);
+                        Ok(())
+                    }
+                    Err(e) => Err(db_err_class(&e).to_string()),
+                },
+                QOp::SStmt(k, s) => match sessions.get_mut(k) {
+                    Some(sess) => sess.execute(&s.sql()).map(|_| ()).map_err(|_| "query".to_string()),
+                    None => Err("nosession".into()),
+                },
+                QOp::SCommit(k) => match sessions.remove(k) {
+                    Some(mut sess) => sess.commit_transaction().map_err(|_| "query".to_string()),
+                    None => Err("nosession".into()),
+                },
+                QOp::SRollback(k) => match sessions.remove(k) {
+                    Some(mut sess) => sess.abort_transaction().map_err(|_| "query".to_string()),
+                    None => Err("nosession".into()),
+                },
+                QOp::Vacuum => dbr.vacuum().map(|_| ()).map_err(|e| db_err_class(&e).to_string()),
+                QOp::Flush => dbr.flush().map_err(|e| db_err_class(&e).to_string()),
+                QOp::Reopen => Ok(()),
+            }
+        });
+        let mut r = r;
+        if *op == QOp::Reopen && r.is_ok() {
+            sessions.clear();
+            db = None; // clean close: Drop flushes
+            obs.cache = None;
+            r = guard(|| match Database::open(&path, cfg) {
+                Ok(d) => {
+                    db = Some(d);
+                    Ok(())
+                }
+                Err(e) => Err(db_err_class(&e).to_string()),
+            });
+        }
+        let rs = match &r {
+            Ok(()) => "ok".to_string(),
+            Err(e) if e.starts_with("PANIC@") => format!("P{}", &e[6..]),
+            Err(e) => format!("E{}", e),
+        };
+        let Some(dbr) = db.as_ref() else {
+            parts.push(format!("r={} D=Eclosed", rs));
+            break;
+        };
+        parts.push(format!("r={} {}", rs, obs.step(dbr)));
+    }
+    sessions.clear();
+    drop(db);
+    format!("obs {}", parts.join(" ; "))
+}
+
+// ------------------------------------------------------------------------------------------------ generators
+
+/// the generator's own idea of the allocator, used only to choose meaningful page ids
+struct Sim {
+    total: u64,
+    free: VecDeque<u64>,
+    used: Vec<(u64, bool)>,
+}
+
+fn gen_seq(rng: &mut Rng, n_ops: usize, flavour: &str) -> (String, Vec<String>) {
+    let ps = *rng.pick(&[4096usize, 8192]);
+    let cache = *rng.pick(&[64usize, 10000]);
+    let mut sim = Sim { total: 1, free: VecDeque::new(), used: Vec::new() };
+    let mut ops: Vec<SOp> = Vec::new();
+    let mut tags: Vec<String> = vec!["seq".into(), flavour.to_string()];
+    let mut tag = |t: &str, tags: &mut Vec<String>| {
+        if !tags.iter().any(|x| x == t) {
+            tags.push(t.to_string());
+        }
+    };
+    // phase structure: grow, then churn
+    for i in 0..n_ops {
+        let want_alloc = if i < n_ops / 4 { 80 } else { 45 };
+        let roll = rng.below(100);
+        if roll < want_alloc || sim.used.is_empty() {
+            let k = rng.chance(1, 3);
+            ops.push(SOp::Alloc(k));
+            let p = match sim.free.pop_front() {
+                Some(p) => {
+                    tag("reuse", &mut tags);
+                    p
+                }
+                None => {
+                    tag("grow", &mut tags);
+                    sim.total += 1;
+                    sim.total - 1
+                }
+            };
+            sim.used.push((p, k));
+        } else if roll < want_alloc + 38 {
+            let i = rng.below(sim.used.len() as u64) as usize;
+            let (p, k) = sim.used.swap_remove(i);
+            // the type parameter normally matches the page; sometimes not (irrelevant while the page is cached)
+            let kk = if rng.chance(1, 10) { !k } else { k };
+            ops.push(SOp::Dealloc(p, kk));
+            sim.free.push_back(p);
+            tag("dealloc", &mut tags);
+        } else if roll < want_alloc + 43 {
+            let ov: Vec<u64> = sim.used.iter().filter(|x| x.1).map(|x| x.0).collect();
+            if ov.len() >= 2 && flavour != "plain" {
+                let p = *rng.pick(&ov);
+                let q = if rng.chance(1, 4) { 0 } else { *rng.pick(&ov) };
+                ops.push(SOp::Link(p, q));
+                tag("link", &mut tags);
+            } else {
+                ops.push(SOp::Alloc(true));
+                let p = sim.free.pop_front().unwrap_or_else(|| {
+                    sim.total += 1;
+                    sim.total - 1
+                });
+                sim.used.push((p, true));
+            }
+        } else if roll < want_alloc + 46 {
+            ops.push(SOp::Flush);
+            tag("flush", &mut tags);
+        } else if roll < want_alloc + 48 {
+            ops.push(SOp::Reopen);
+            tag("reopen", &mut tags);
+        } else if roll < want_alloc + 50 {
+            ops.push(SOp::Dealloc(0, rng.chance(1, 2)));
+            tag("d0", &mut tags);
+        } else if flavour == "dfree" && !sim.free.is_empty() {
+            // contract violation: give back a page that is already free
+            let i = rng.below(sim.free.len() as u64) as usize;
+            let p = sim.free[i];
+            ops.push(SOp::Dealloc(p, true));
+            tag("double-free", &mut tags);
+        } else {
+            ops.push(SOp::Alloc(false));
+            let p = sim.free.pop_front().unwrap_or_else(|| {
+                sim.total += 1;
+                sim.total - 1
+            });
+            sim.used.push((p, false));
+        }
+    }
+    if ops.len() >= 10 {
+        tags.push("nt".into());
+    }
+    (format!("seq {} {} | {}", ps, cache, ops.iter().map(show_sop).collect::<Vec<_>>().join(" ; ")), tags)
+}
+
+struct TableSim {
+    name: String,
+    ids: Vec<u64>,
+    next_id: u64,
+    indexes: Vec<String>,
+}
+
+/// Row lengths. `clean`: every row stays far below the size at which cells are "large against the page" (no overflow
+/// chain, dividers small); `big`: rows from 10 bytes to several pages.
+fn pick_len(rng: &mut Rng, ps: usize, big: bool) -> usize {
+    if !big {
+        return *rng.pick(&[10usize, 24, 40, 64, 100, 150]);
+    }
+    match rng.below(10) {
+        0..=2 => rng.range(10, 200) as usize,
+        3..=4 => rng.range(200, (ps / 3) as i64) as usize,
+        5..=6 => rng.range((ps / 3) as i64, ps as i64) as usize,
+        7..=8 => rng.range(ps as i64, 3 * ps as i64) as usize,
+        _ => rng.range(3 * ps as i64, 6 * ps as i64) as usize,
+    }
+}
+
+fn gen_sql(rng: &mut Rng, n_ops: usize, family: &str, big: bool) -> (String, Vec<String>) {
+    let ps = *rng.pick(&[4096usize, 8192]);
+    let cache = *rng.pick(&[64usize, 10000]);
+    let mut tags: Vec<String> = vec!["sql".into(), family.to_string(), if big { "bigcell".into() } else { "clean".into() }];
+    tags.push(format!("ps{}", ps));
+    tags.push(format!("cache{}", cache));
+    let mut ops: Vec<QOp> = Vec::new();
+    let mut tables: Vec<TableSim> = Vec::new();
+    let mut tcount = 0u32;
+    let mut icount = 0u32;
+    let mut open: Option<u32> = None; // an open session (at most one at a time)
+    let mut sess_n = 0u32;
+    let mut tag = |t: &str, tags: &mut Vec<String>| {
+        if !tags.iter().any(|x| x == t) {
+            tags.push(t.to_string());
+        }
+    };
+    let max_tables = if big { 3 } else { 3 };
+    let mut push = |ops: &mut Vec<QOp>, open: &Option<u32>, s: Stmt| match open {
+        Some(k) => ops.push(QOp::SStmt(*k, s)),
+        None => ops.push(QOp::Auto(s)),
+    };
+    // always start with one table
+    tcount += 1;
+    tables.push(TableSim { name: format!("t{}", tcount), ids: Vec::new(), next_id: 1, indexes: Vec::new() });
+    ops.push(QOp::Auto(Stmt::CreateTable(format!("t{}", tcount))));
+    while ops.len() < n_ops {
+        let roll = rng.below(100);
+        let use_sessions = family == "rollback" || family == "mixed";
+        if use_sessions && open.is_none() && roll < 8 {
+            sess_n = (sess_n % 9) + 1;
+            open = Some(sess_n);
+            ops.push(QOp::SBegin(sess_n));
+            tag("session", &mut tags);
+            continue;
+        }
+        if let Some(k) = open {
+            if roll < 18 {
+                if rng.chance(if family == "rollback" { 3 } else { 1 }, 4) {
+                    ops.push(QOp::SRollback(k));
+                    tag("rollback", &mut tags);
+                } else {
+                    ops.push(QOp::SCommit(k));
+                    tag("commit", &mut tags);
+                }
+                open = None;
+                continue;
+            }
+        }
+        if tables.is_empty() || (roll < 22 && roll >= 18 && tables.len() < max_tables) {
+            tcount += 1;
+            let name = format!("t{}", tcount);
+            tables.push(TableSim { name: name.clone(), ids: Vec::new(), next_id: 1, indexes: Vec::new() });
+            push(&mut ops, &open, Stmt::CreateTable(name));
+            tag("create", &mut tags);
+            continue;
+        }
+        let ti = rng.below(tables.len() as u64) as usize;
+        if (family == "ddl" || family == "mixed") && roll >= 22 && roll < 27 && (open.is_none() || family == "mixed") {
+            // DROP TABLE (outside sessions unless the family says otherwise)
+            let t = tables.swap_remove(ti);
+            push(&mut ops, &open, Stmt::DropTable(t.name));
+            tag("drop", &mut tags);
+            continue;
+        }
+        if (family == "ddl" || family == "index" || family == "mixed") && roll >= 27 && roll < 32 && tables[ti].indexes.len() < 2 {
+            icount += 1;
+            let name = format!("i{}", icount);
+            let col = if big && rng.chance(1, 3) { "v" } else { "k" };
+            tables[ti].indexes.push(name.clone());
+            push(&mut ops, &open, Stmt::CreateIndex(name, tables[ti].name.clone(), col.into()));
+            tag("index", &mut tags);
+            if col == "v" {
+                tag("index-v", &mut tags);
+            }
+            continue;
+        }
+        if (family == "ddl" || family == "index" || family == "mixed") && roll >= 32 && roll < 34 && !tables[ti].indexes.is_empty() {
+            let name = tables[ti].indexes.pop().unwrap();
+            push(&mut ops, &open, Stmt::DropIndex(name));
+            tag("drop-index", &mut tags);
+            continue;
+        }
+        if (family == "vacuum" || family == "mixed" || family == "ddl") && roll >= 34 && roll < 38 && open.is_none() {
+            ops.push(QOp::Vacuum);
+            tag("vacuum", &mut tags);
+            continue;
+        }
+        if (family == "reopen" || family == "mixed") && roll >= 38 && roll < 41 && open.is_none() {
+            ops.push(QOp::Reopen);
+            tag("reopen", &mut tags);
+            continue;
+        }
+        if roll >= 41 && roll < 43 && open.is_none() {
+            ops.push(QOp::Flush);
+            tag("flush", &mut tags);
+            continue;
+        }
+        // DML
+        let t = &mut tables[ti];
+        let d = rng.below(100);
+        if t.ids.is_empty() || d < 50 {
+            // a burst of inserts builds multi-page trees quickly
+            let burst = if rng.chance(1, 4) { rng.range(5, 25) as usize } else { 1 };
+            for _ in 0..burst {
+                let id = t.next_id;
+                t.next_id += 1;
+                t.ids.push(id);
+                let len = pick_len(rng, ps, big);
+                if len > ps / 4 {
+                    tag("overflow-row", &mut tags);
+                }
+                push(&mut ops, &open, Stmt::Insert(t.name.clone(), id, len));
+            }
+            tag("insert", &mut tags);
+        } else if d < 75 {
+            let id = *rng.pick(&t.ids);
+            let len = pick_len(rng, ps, big);
+            push(&mut ops, &open, Stmt::Update(t.name.clone(), id, len));
+            tag("update", &mut tags);
+        } else if d < 93 {
+            let i = rng.below(t.ids.len() as u64) as usize;
+            let id = t.ids.swap_remove(i);
+            push(&mut ops, &open, Stmt::Delete(t.name.clone(), id));
+            tag("delete", &mut tags);
+        } else {
+            let lo = *rng.pick(&t.ids);
+            let hi = lo + rng.range(2, 12) as u64;
+            t.ids.retain(|x| *x < lo || *x >= hi);
+            push(&mut ops, &open, Stmt::DeleteRange(t.name.clone(), lo, hi));
+            tag("delete-range", &mut tags);
+        }
+    }
+    if let Some(k) = open {
+        ops.push(if rng.chance(1, 2) { QOp::SCommit(k) } else { QOp::SRollback(k) });
+    }
+    // every history ends with VACUUM (dead rows are removed physically: pages must come back) and a reopen
+    if family != "plain" {
+        ops.push(QOp::Vacuum);
+        ops.push(QOp::Reopen);
+    }
+    if ops.len() >= 10 {
+        tags.push("nt".into());
+    }
+    (format!("sql {} {} | {}", ps, cache, ops.iter().map(show_qop).collect::<Vec<_>>().join(" ; ")), tags)
+}
+
+impl Engine for PagerEngine {
+    fn timeout_ms(&self) -> u64 {
+        120_000
+    }
+
+    fn exec(&mut self, line: &str) -> String {
+        if line.starts_with("seq ") {
+            exec_seq(line)
+        } else if line.starts_with("sql ") {
+            exec_sql(line)
+        } else {
+            "bad-op".into()
+        }
+    }
+
+    fn gen_cases(&self, rng: &mut Rng, tier: Tier) -> Vec<Case> {
+        let mut out = Vec::new();
+        let (n_seq, n_sql, scale) = if tier == Tier::Quick { (100, 44, 1) } else { (1000, 440, 2) };
+        let mut r1 = rng.fork("seq");
+        for i in 0..n_seq {
+            let flavour = match i % 10 {
+                0..=5 => "plain",
+                6..=7 => "links",
+                _ => "dfree",
+            };
+            let n_ops = match i % 4 {
+                0 => r1.range(3, 12),
+                1 | 2 => r1.range(20, 80),
+                _ => r1.range(100, 300),
+            } as usize;
+            let (line, tags) = gen_seq(&mut r1, n_ops, flavour);
+            let t: Vec<&str> = tags.iter().map(|s| s.as_str()).collect();
+            out.push(Case::new(line, &t));
+        }
+        let mut r2 = rng.fork("sql");
+        let families = ["plain", "rollback", "ddl", "index", "vacuum", "reopen", "mixed"];
+        for i in 0..n_sql {
+            let family = families[i % families.len()];
+            // region split: 3 of 11 histories use large rows (KF-C10-divider-full-copy region `bigcell`), the rest stay clean
+            let big = i % 11 >= 8;
+            let n_ops = (r2.range(25, 90) as usize) * scale;
+            let (line, tags) = gen_sql(&mut r2, n_ops, family, big);
+            let t: Vec<&str> = tags.iter().map(|s| s.as_str()).collect();
+            out.push(Case::new(line, &t));
+        }
+        out
+    }
 }
